@@ -21,6 +21,7 @@ REQUIRED_MONITORS = ("wf_generic", "wf_notebook", "wf_decision")
 ASSUMPTIONS = ["checker vmon/refdiff.py encodes the documented diff format",
                "similar_insert diffs are relative to the other side's inserted value and are schema-checked only",
                "a 'replace' with an equal value is not flagged (not stated by the property)"]
+OPTIMIZED_SHARDS = (0,)
 NSHARDS = 16
 
 
